@@ -226,7 +226,12 @@ def dag_fingerprints(nodes):
                 parts.append((s, MISSING))
         d = getattr(n, "__dict__", None)
         if d:
-            parts.append(tuple((k, _slot_value(v, fps)) for k, v in sorted(d.items()) if k != "_hash"))
+            # BaseFormOperators: value state only.  The Counted label (_count) is neither part of repr,
+            # ==, hash nor of the signature, and Expr-valued entries are rendered by repr so that the
+            # fingerprint does not depend on node identity.
+            parts.append(
+                tuple((k, _slot_value(v, {})) for k, v in sorted(d.items()) if k not in ("_hash", "_count", "_counted_class"))
+            )
         sz = 1
         for c in ops:
             if isinstance(c, Expr):
@@ -391,8 +396,10 @@ def observe(obj, namer=None, full=True):
     nodes = dag_nodes(roots)
     o.nnodes = len(nodes)
     saved_hash = [n._hash for n in nodes]
-    o.node_raw = saved_hash
     fps, size = dag_fingerprints(nodes)
+    # cached hashes keyed by structural fingerprint (node identity may legitimately change through the
+    # operand sharing of ==, structure may not)
+    o.node_raw = [(fps[id(n)], h) for n, h in zip(nodes, saved_hash)]
     o.tree = sum(size[id(r)] for r in roots) if roots else 0
     lean = o.lean
     if kind in ("form", "integral"):
@@ -449,6 +456,8 @@ def observe(obj, namer=None, full=True):
                         setattr(obj, s, None)
                     except AttributeError:
                         pass
+        for r in roots:
+            _try(lambda r=r: hash(r))  # fresh hash of every node reachable from every root
         small = o.tree <= REPR_CAP
         if kind == "baseform":
             small = True
@@ -463,7 +472,7 @@ def observe(obj, namer=None, full=True):
             fresh["integral hashes"] = _try(lambda: repr([hash(i) for i in obj._integrals]))
         if kind == "expr":
             fresh["ufl_shape"] = repr(_try(lambda: obj.ufl_shape))
-        o.node_fresh = [n._hash for n in nodes]
+        o.node_fresh = {fps[id(n)]: n._hash for n in nodes}
     finally:
         for n, h in zip(nodes, saved_hash):
             n._hash = h
@@ -514,8 +523,9 @@ def stale_caches(cur, ref, same_exec=True):
             "coefficients()"
         ):
             out.append("stale Form._coefficients")
-    if ref.node_fresh is not None and cur.node_raw is not None and len(cur.node_raw) == len(ref.node_fresh):
-        bad = sum(1 for a, b in zip(cur.node_raw, ref.node_fresh) if a is not None and a != b)
+    if ref.node_fresh is not None and cur.node_raw is not None:
+        nf = ref.node_fresh
+        bad = sum(1 for fp, a in cur.node_raw if a is not None and nf.get(fp) is not None and nf[fp] != a)
         if bad:
             out.append(f"stale Expr._hash on {bad} node(s)")
     return out
@@ -545,7 +555,9 @@ def diff(before, after, same_exec=True):
     for k, v in before.raw.items():
         if not same_exec and k in ID_DEPENDENT:
             continue
-        if v is not None and after.raw.get(k) != v:
+        # a cache may be filled (None -> value) or dropped (value -> None, value-neutral); it must never
+        # silently hold a different value
+        if v is not None and after.raw.get(k) is not None and after.raw.get(k) != v:
             out.append("cache" + k)
     return out
 
